@@ -513,7 +513,9 @@ case("c17-canceled-checked-after-terminal-removed", "C17", "mutant", [(H + "comp
         statuses = [s.status for s in stages]
         retry_count_ok = bool(getattr(message, "retry_count", 0))
 """)], "C17.R5")
-case("c17-only-running-stages-cancelled", "C17", "mutant", [(H + "workflow_control.py", "to_cancel = [s for s in execution.top_level_stages() if not s.status.is_complete]", "to_cancel = [s for s in execution.top_level_stages() if s.status == WorkflowStatus.RUNNING]")], "C17.R2")
+case("c17-only-running-stages-cancelled", "C17", "mutant", [(H + "workflow_control.py", "to_cancel = [s for s in execution.stages if not s.status.is_complete]", "to_cancel = [s for s in execution.stages if s.status == WorkflowStatus.RUNNING]")], "C17.R2")
+case("c17-only-top-level-stages-cancelled", "C17", "mutant", [(H + "workflow_control.py", "to_cancel = [s for s in execution.stages if not s.status.is_complete]", "to_cancel = [s for s in execution.top_level_stages() if not s.status.is_complete]")], "C17.R2")
+case("c17-refactor-fanout-active-set", "C17", "refactor", [(H + "workflow_control.py", "to_cancel = [s for s in execution.stages if not s.status.is_complete]", "to_cancel = [st for st in execution.stages if st.status not in COMPLETED_STATUSES]"), (H + "workflow_control.py", "from stabilize.models.status import WorkflowStatus", "from stabilize.models.status import COMPLETED_STATUSES, WorkflowStatus")])
 case("c18-transient-signal-buffered", "C18", "mutant", [(H + "signal_stage.py", "            if message.persistent:", "            if message.persistent or message.signal_data:")], "C18.R1")
 case("c18-buffer-not-stored", "C18", "mutant", [(H + "signal_stage.py", """                stage.context["_buffered_signals"] = buffered
 
@@ -1361,3 +1363,33 @@ case("c18-refactor-approve-explicit-flag", "C18", "refactor", [("src/stabilize/h
 case("c18-send-signal-default-transient", "C18", "mutant", [("src/stabilize/hitl.py", "    persistent: bool = True,", "    persistent: bool = False,")], "C18.R6")
 case("c05-completetask-stops-at-skipped", "C05", "mutant", [(H + "complete_task.py", "            if message.status == WorkflowStatus.REDIRECT:", "            if message.status in (WorkflowStatus.REDIRECT, WorkflowStatus.SKIPPED):")], "C05.R13")
 case("c05-refactor-redirect-branch-notin", "C05", "refactor", [(H + "complete_task.py", "            if message.status == WorkflowStatus.REDIRECT:", "            if message.status in {WorkflowStatus.REDIRECT}:")])
+case("c10-not-started-workflow-stagewise", "C10", "mutant", [("src/stabilize/recovery.py", "        if full_workflow.status == WorkflowStatus.NOT_STARTED:\n            try:", "        if full_workflow.status == WorkflowStatus.NOT_STARTED and not full_workflow.stages:\n            try:")], "C10.R9")
+case("c10-refactor-not-started-in-set", "C10", "refactor", [("src/stabilize/recovery.py", "        if full_workflow.status == WorkflowStatus.NOT_STARTED:\n            try:", "        if full_workflow.status in {WorkflowStatus.NOT_STARTED}:\n            try:")])
+case("c12-started-event-after-commit", "C12", "mutant", [(H + "start_task.py", """                if self.event_recorder:
+                    self.set_event_context(stage.execution.id)
+                    self.event_recorder.record_task_started(
+                        task_model, stage.execution.id, source_handler="StartTaskHandler"
+                    )
+""", """            if self.event_recorder:
+                self.set_event_context(stage.execution.id)
+                self.event_recorder.record_task_started(
+                    task_model, stage.execution.id, source_handler="StartTaskHandler"
+                )
+""")], "C12.R5")
+case("c12-cps-terminal-without-event", "C12", "mutant", [(H + "continue_parent_stage.py", """                handler_name="ContinueParentStage",
+                in_transaction=lambda: self._record_parent_failed(stage),
+            )
+            return
+
+        if not all_complete:
+            # Not all before-stages complete yet""", """                handler_name="ContinueParentStage",
+            )
+            return
+
+        if not all_complete:
+            # Not all before-stages complete yet""")], "C12.R1")
+case("c13-workflow-event-before-txn", "C13", "mutant", [(H + "complete_workflow.py", """            # Collect running stages to cancel if not successful
+            running_stages = []""", """            if self.event_recorder and status == WorkflowStatus.SUCCEEDED:
+                self.event_recorder.record_workflow_completed(execution, source_handler="CompleteWorkflowHandler")
+            # Collect running stages to cancel if not successful
+            running_stages = []""")], "C13.R6")
